@@ -716,7 +716,11 @@ fn recv_case(s: &Scen, rng: &mut Rng, stranger: Pubkey) -> Option<String> {
             Err((i, _)) if i < cur => None,
             Err((i, ExecErr::Custom(code))) if i == cur && code >= 6000 => Some(format!("{} => err {}", head, code)),
             Err((i, ExecErr::Panic)) if i == cur => Some(format!("{} => panic", head)),
+            // (the start went through and a later instruction failed: the snapshot is not observable, the acceptance is)
+            Err((i, _)) if i > cur && !record_ok => Some(format!("{} => ok accepted-with-foreign-record", head)),
             Err(_) => None,
+            // (from the property text, whatever the table says: control over an account is recorded in ITS record)
+            Ok(()) if !record_ok => Some(format!("{} => ok accepted-with-foreign-record", head)),
             Ok(()) => {
                 let rec = w.liquidation_record(&rec_key);
                 Some(format!(
@@ -769,6 +773,8 @@ fn recv_case(s: &Scen, rng: &mut Rng, stranger: Pubkey) -> Option<String> {
     toks.push(format!("{} {} {} {} {} {} {} {}", record_ok as u8, keys.any(&named), wallet_ok as u8, fee_bits, pam, plm, pae, ple));
     let head = toks.join(" ");
     match w.exec(&end) {
+        Ok(()) if !record_ok => Some(format!("{} => ok accepted-with-foreign-record", head)),
+        Ok(()) if named != receiver => Some(format!("{} => ok accepted-for-someone-else-than-the-receiver", head)),
         Ok(()) => Some(format!("{} => ok {}", head, w.marginfi_account(&acct_key).account_flags)),
         Err(ExecErr::Custom(code)) if code >= 6000 => Some(format!("{} => err {}", head, code)),
         Err(ExecErr::Panic) => Some(format!("{} => panic", head)),
@@ -834,6 +840,7 @@ fn startfl_case(s: &Scen, rng: &mut Rng, stranger: Pubkey) -> Option<String> {
         Err((i, ExecErr::Custom(code))) if i == cur && code >= 6000 => Some(format!("{} => err {}", head, code)),
         Err((i, ExecErr::Panic)) if i == cur => Some(format!("{} => panic", head)),
         Err((i, _)) if i == cur => None,
+        _ if signer != s.users[u].wallet => Some(format!("{} => ok accepted-for-someone-else-than-the-authority", head)),
         _ => Some(format!("{} => ok {}", head, flags0 | ACCOUNT_IN_FLASHLOAN)),
     }
 }
